@@ -205,7 +205,7 @@ def spec_table():
             [('__setitem__', ('a', 2), {})] +
             [('setdefault', (k, 2), {}) for k in K] +
             [('pop', (k,), {}) for k in K] + [('pop', ('a', 7), {}), ('pop', ('b',), {'default': 8})] +
-            [('update', ({'a': 5, 'b': 6},), {}), ('update', ({},), {}), ('clear', (), {}),
+            [('update', ({'a': 5, 'b': 6},), {}), ('update', ({},), {}), ('update', ([('b', 3)],), {}), ('clear', (), {}),
              ('reset', ({'b': 9},), {})],
         reads=[('len', len, lambda r: len(r.d)),
                ('geta', lambda b: b.get('a'), lambda r: r.d.get('a')),
@@ -220,7 +220,8 @@ def spec_table():
         make=lambda: (B.ReplSet(), RefSet()),
         ops=[('add', (v,), {}) for v in V] + [('remove', (v,), {}) for v in (0, 1)] +
             [('discard', (v,), {}) for v in (0, 2)] + [('pop', (), {}), ('clear', (), {}),
-             ('update', ({1, 2},), {}), ('update', (set(),), {}), ('reset', ({0},), {})],
+             ('update', ({1, 2},), {}), ('update', (set(),), {}), ('update', ([0, 2],), {}),
+             ('reset', ({0},), {})],
         reads=[('len', len, lambda r: len(r.d)),
                ('in1', lambda b: 1 in b, lambda r: 1 in r.d)],
         contents=lambda b: sorted(b.rawData()))
